@@ -163,6 +163,7 @@ let last_res = ref ""
 let run_input (caseno : int) (tag : string) (inhex : string) (prog : sinstr list) (s0 : mstate) =
   let t = Lazy.force ucd in
   let steps = ref 0 and h = ref 0 in
+  let raises = Buffer.create 8 in
   let finish res (s : mstate) fix_mr =
     last_state := Some s; last_res := res;
     let mr = if fix_mr then N.max s.mr s.sr else s.mr in
@@ -173,13 +174,14 @@ let run_input (caseno : int) (tag : string) (inhex : string) (prog : sinstr list
     print_string " syms=";
     List.iter (fun x -> Printf.printf "%s," x)
       (List.sort compare (List.map (fun (k, vs) -> str_of_name k ^ "=" ^ String.concat "" (List.map (fun v -> hex v ^ "/") vs)) s.syms));
-    print_newline () in
+    Printf.printf " raises=%s\n" (Buffer.contents raises) in
   let rec go (s : mstate) =
     let fetched = (s.fmode = N0) && (match fetch prog s.pc with Some _ -> true | None -> false) in
     if fetched && !steps >= !budget then finish "diverged" s true
     else begin
       if fetched then begin
         incr steps;
+        (match fetch prog s.pc with Some (IRaise (_, _)) -> Buffer.add_char raises (if s.rinh then 'I' else 'R') | _ -> ());
         let vals = [low32 (match s.pc with Z0 -> N0 | Zpos p -> Npos p | Zneg _ -> N0); low32 s.sr; low32 s.mr; low32 s.rc; low32 s.cd; low32 s.cic; List.length s.frames; List.length s.resp] in
         List.iter (fun v -> h := ((!h * 33) lxor v) land 0x3fffffffffffff) vals;
         if !trace then Printf.printf "  step %d pc=%d sr=%Lu mr=%Lu rc=%d cd=%d ci=%d fr=%d resp=%d\n" !steps (int_of_z s.pc) (i64_of_n s.sr) (i64_of_n s.mr) (int_of_n s.rc) (int_of_n s.cd) (int_of_n s.cic) (List.length s.frames) (List.length s.resp)
@@ -278,6 +280,7 @@ let do_grammar (caseno : int) (line : string) =
         let g = { g_nrules = nat_of_int (List.length names); g_defs = List.rev !defs; g_start = !start; g_space = !space } in
         match compile (Lazy.force ucd) g with
         | Err w -> Printf.printf "case %d error %s\n" caseno (err_name w)
+        | OK code when not (limits_ok code) -> Printf.printf "case %d error number_of_resources_exceeds_internal_limit\n" caseno
         | OK code ->
             Printf.printf "case %d prog " caseno; print_program (lower code); print_newline ();
             List.iter (function
